@@ -80,6 +80,18 @@ pub trait Check: Sync {
     }
     fn run(&self, case: &Self::Case) -> Outcome;
     /// run every case in a child that journals the case before executing it (aborts, UB)
+    /// cases evaluated by the parent itself (regressions, templates, replays) run in a child process if this says so
+    fn isolate_case(&self, _case: &Self::Case) -> bool {
+        self.isolate()
+    }
+    /// a journaling shard whose current case is older than this is considered hung
+    fn case_stall_limit(&self) -> Duration {
+        Duration::from_secs(120)
+    }
+    /// wall-clock limit for one case re-run alone in a child process (kill + inconclusive afterwards)
+    fn one_case_limit(&self) -> Duration {
+        Duration::from_secs(60)
+    }
     fn isolate(&self) -> bool {
         false
     }
@@ -512,16 +524,72 @@ fn one_main<C: Check>(check: &C, path: &Path) -> i32 {
 
 /// Evaluate one case, in a child process if the check asks for isolation.
 fn eval_case<C: Check>(check: &C, case_json: &Value, tmpdir: &Path) -> Result<Outcome, String> {
-    eval_case_in(check, case_json, tmpdir, check.isolate())
+    let child = serde_json::from_value::<C::Case>(case_json.clone()).map(|c| check.isolate_case(&c)).unwrap_or_else(|_| check.isolate());
+    eval_case_in(check, case_json, tmpdir, child)
 }
+
+/// run a child until it exits or the deadline passes (then it is killed and None is returned)
+fn run_until(cmd: &mut std::process::Command, deadline: Instant) -> Option<(std::process::ExitStatus, String)> {
+    let mut ch = cmd.stdout(std::process::Stdio::null()).stderr(std::process::Stdio::piped()).spawn().ok()?;
+    // drain stderr on a thread so that a chatty child cannot block on a full pipe
+    let mut err = ch.stderr.take();
+    let reader = std::thread::spawn(move || {
+        let mut s = String::new();
+        if let Some(e) = err.as_mut() {
+            let _ = std::io::Read::read_to_string(e, &mut s);
+        }
+        s
+    });
+    loop {
+        match ch.try_wait() {
+            Ok(Some(st)) => return Some((st, reader.join().unwrap_or_default())),
+            Ok(None) => {
+                if Instant::now() > deadline {
+                    let _ = ch.kill();
+                    let _ = ch.wait();
+                    return None;
+                }
+                std::thread::sleep(Duration::from_millis(20));
+            }
+            Err(_) => return None,
+        }
+    }
+}
+
+static CHILD_TIMEOUTS: std::sync::atomic::AtomicU32 = std::sync::atomic::AtomicU32::new(0);
 
 fn eval_case_in<C: Check>(check: &C, case_json: &Value, tmpdir: &Path, child: bool) -> Result<Outcome, String> {
     if child {
         let p = tmpdir.join(format!("one-{}.json", case_hash(&case_json.to_string())));
         std::fs::write(&p, serde_json::to_vec(case_json).unwrap()).map_err(|e| e.to_string())?;
         let exe = std::env::current_exe().map_err(|e| e.to_string())?;
-        let o = std::process::Command::new(exe).arg(check.id()).arg("--one").arg(&p).output().map_err(|e| e.to_string())?;
+        // after three time-outs nothing more is re-run alone in this invocation (each costs the full limit)
+        if CHILD_TIMEOUTS.load(std::sync::atomic::Ordering::SeqCst) >= 3 {
+            return Err("not run: three earlier child runs timed out".into());
+        }
+        // a child that hangs (threads of a corrupted process waiting for each other) is killed: the case
+        // stays unjudged (inconclusive), a time-out is never a verdict
+        let mut ch = std::process::Command::new(exe).arg(check.id()).arg("--one").arg(&p).stdout(std::process::Stdio::piped()).stderr(std::process::Stdio::piped()).spawn().map_err(|e| e.to_string())?;
+        let pid = ch.id();
+        let (tx, rx) = std::sync::mpsc::channel::<()>();
+        let limit = check.one_case_limit();
+        let killer = std::thread::spawn(move || match rx.recv_timeout(limit) {
+            Err(std::sync::mpsc::RecvTimeoutError::Timeout) => {
+                let _ = std::process::Command::new("kill").arg("-9").arg(pid.to_string()).status();
+                true
+            }
+            _ => false,
+        });
+        let o = ch.wait_with_output();
+        let _ = tx.send(());
+        let killed = killer.join().unwrap_or(false);
         let _ = std::fs::remove_file(&p);
+        if killed {
+            CHILD_TIMEOUTS.fetch_add(1, std::sync::atomic::Ordering::SeqCst);
+            println!("INCONCLUSIVE property={}: a case re-run alone in a child process did not finish within {:?} and was killed", check.id(), limit);
+            return Err("child timed out".into());
+        }
+        let o = o.map_err(|e| e.to_string())?;
         let stdout = String::from_utf8_lossy(&o.stdout);
         let verdict = stdout.lines().rev().filter(|l| l.starts_with('{')).find_map(|l| serde_json::from_str::<Value>(l).ok());
         match verdict {
@@ -538,6 +606,11 @@ fn eval_case_in<C: Check>(check: &C, case_json: &Value, tmpdir: &Path, child: bo
                     _ => out.fail(v["signature"].as_str().unwrap_or("?"), v["message"].as_str().unwrap_or("?")),
                 }
                 Ok(out)
+            }
+            None if std::os::unix::process::ExitStatusExt::signal(&o.status) == Some(9) => {
+                // killed from outside (out-of-memory killer, operator): never a verdict
+                println!("INCONCLUSIVE property={}: a case re-run alone in a child process was killed (SIGKILL)", check.id());
+                Err("child was killed".into())
             }
             None => {
                 let mut out = Outcome::default();
@@ -761,14 +834,17 @@ fn parent_main<C: Check>(check: &C, a: &Args, tmpdir: &Path) -> i32 {
     // ---- (b) templates ---------------------------------------------------------------------
     let templates = check.templates(a.tier);
     let mut template_count = 0u64;
+    let mut template_unjudged = 0u64;
     for case in &templates {
         template_count += 1;
         let cj = serde_json::to_value(case).unwrap();
         let out = match eval_case(check, &cj, tmpdir) {
             Ok(o) => o,
             Err(e) => {
+                // not judged (time-out / killed): the run is inconclusive, but what was found so far is still reported
                 eprintln!("template: {e}");
-                return 2;
+                template_unjudged += 1;
+                continue;
             }
         };
         match &out.fail {
@@ -811,7 +887,7 @@ fn parent_main<C: Check>(check: &C, a: &Args, tmpdir: &Path) -> i32 {
         children.push((i, out, child));
     }
     let deadline = Instant::now() + check.watchdog(a.tier);
-    let mut infra_fail = false;
+    let mut infra_fail = template_unjudged > 0;
     let mut pending: Vec<_> = children;
     let mut finished: Vec<(usize, PathBuf, std::process::ExitStatus, String)> = vec![];
     while !pending.is_empty() {
@@ -826,7 +902,18 @@ fn parent_main<C: Check>(check: &C, a: &Args, tmpdir: &Path) -> i32 {
                     }
                     finished.push((i, out, st, err));
                 }
-                Ok(None) => still.push((i, out, ch)),
+                Ok(None) => {
+                    // a journaling shard that has been sitting on one case for minutes is hung (threads of a
+                    // corrupted process waiting for each other): kill it, the analysis below treats it like a
+                    // shard that died on that case
+                    let stalled = check.isolate()
+                        && std::fs::metadata(out.with_extension("cur")).and_then(|m| m.modified()).ok().and_then(|t| t.elapsed().ok()).map_or(false, |age| age > check.case_stall_limit());
+                    if stalled {
+                        println!("shard {i}: no progress on its current case for {:?}; killed", check.case_stall_limit());
+                        let _ = ch.kill();
+                    }
+                    still.push((i, out, ch))
+                }
                 Err(_) => still.push((i, out, ch)),
             }
         }
@@ -844,6 +931,12 @@ fn parent_main<C: Check>(check: &C, a: &Args, tmpdir: &Path) -> i32 {
         }
         std::thread::sleep(Duration::from_millis(20));
     }
+    // crash analysis (re-running blamed cases alone, resuming shards behind them) has its own budget
+    let post_deadline = Instant::now() + match a.tier {
+        Tier::Quick => Duration::from_secs(300),
+        Tier::Thorough => Duration::from_secs(3600),
+    };
+    let mut post_expired = false;
     for (i, out, st, err) in finished {
         let rep: Option<Acc> = std::fs::read(&out).ok().and_then(|b| serde_json::from_slice(&b).ok());
         match rep {
@@ -878,6 +971,14 @@ fn parent_main<C: Check>(check: &C, a: &Args, tmpdir: &Path) -> i32 {
                     let mut st_now = format!("{st:?}");
                     let mut err_now = err.clone();
                     while let Some(j) = journal.take() {
+                        if Instant::now() > post_deadline {
+                            if !post_expired {
+                                println!("INCONCLUSIVE property={id}: the budget for analysing dead shards is used up; remaining shards are not resumed");
+                            }
+                            post_expired = true;
+                            infra_fail = true;
+                            break;
+                        }
                         attempts += 1;
                         let index = j.get("index").and_then(|v| v.as_u64()).unwrap_or(0);
                         let case = j.get("case").cloned().unwrap_or(j.clone());
@@ -909,21 +1010,12 @@ fn parent_main<C: Check>(check: &C, a: &Args, tmpdir: &Path) -> i32 {
                         }
                         // resume the shard behind the blamed case
                         let out_r = tmpdir.join(format!("shard-{i}-r{attempts}.json"));
-                        let o = std::process::Command::new(&exe)
-                            .arg(id)
-                            .arg("--tier")
-                            .arg(a.tier.name())
-                            .arg("--shard")
-                            .arg(format!("{i}/{nshards}"))
-                            .arg("--out")
-                            .arg(&out_r)
-                            .arg("--resume-after")
-                            .arg(index.to_string())
-                            .env("VERIF_SEED", seed.to_string())
-                            .stdout(std::process::Stdio::null())
-                            .stderr(std::process::Stdio::piped())
-                            .output();
-                        let Ok(o) = o else { break };
+                        let o = run_until(std::process::Command::new(&exe).arg(id).arg("--tier").arg(a.tier.name()).arg("--shard").arg(format!("{i}/{nshards}")).arg("--out").arg(&out_r).arg("--resume-after").arg(index.to_string()).env("VERIF_SEED", seed.to_string()), post_deadline);
+                        let Some(o) = o else {
+                            println!("INCONCLUSIVE property={id}: resumed shard {i} did not finish within the analysis budget and was killed");
+                            infra_fail = true;
+                            break;
+                        };
                         match std::fs::read(&out_r).ok().and_then(|b| serde_json::from_slice::<Acc>(&b).ok()) {
                             Some(r) => {
                                 total.evaluations += r.evaluations;
@@ -943,8 +1035,8 @@ fn parent_main<C: Check>(check: &C, a: &Args, tmpdir: &Path) -> i32 {
                                 }
                             }
                             None => {
-                                st_now = format!("{:?}", o.status);
-                                err_now = String::from_utf8_lossy(&o.stderr).into_owned();
+                                st_now = format!("{:?}", o.0);
+                                err_now = o.1.clone();
                                 journal = std::fs::read(out_r.with_extension("cur")).ok().and_then(|b| serde_json::from_slice::<Value>(&b).ok());
                                 if journal.is_none() {
                                     println!("INCONCLUSIVE property={id}: resumed shard {i} died without a journaled case ({st_now})");
@@ -957,19 +1049,7 @@ fn parent_main<C: Check>(check: &C, a: &Args, tmpdir: &Path) -> i32 {
                     // a shard that does not journal its cases died (abort / signal: memory corruption?): the
                     // generated tier is deterministic, so run that shard again with journaling to find the case
                     let out2 = tmpdir.join(format!("shard-{i}-journal.json"));
-                    let st2 = std::process::Command::new(&exe)
-                        .arg(id)
-                        .arg("--tier")
-                        .arg(a.tier.name())
-                        .arg("--shard")
-                        .arg(format!("{i}/{nshards}"))
-                        .arg("--out")
-                        .arg(&out2)
-                        .arg("--journal")
-                        .env("VERIF_SEED", seed.to_string())
-                        .stdout(std::process::Stdio::null())
-                        .stderr(std::process::Stdio::null())
-                        .status();
+                    let st2 = run_until(std::process::Command::new(&exe).arg(id).arg("--tier").arg(a.tier.name()).arg("--shard").arg(format!("{i}/{nshards}")).arg("--out").arg(&out2).arg("--journal").env("VERIF_SEED", seed.to_string()), post_deadline).map(|o| o.0);
                     let cur2 = out2.with_extension("cur");
                     let case = std::fs::read(&cur2).ok().and_then(|b| serde_json::from_slice::<Value>(&b).ok()).map(|j| j.get("case").cloned().unwrap_or(j));
                     match (case, out2.exists()) {
